@@ -131,6 +131,7 @@ def explore(res, rng, n, exhaustive=None):
                 reqs.append(f'c03e 1 0 {c05.enc_itable(a["table"])} {c05.enc_itable(b["table"])}')
                 meta.append(('refine-default-levels', 'astmLevelCrossingCounting', h, s, h2, a, b))
     config_scale(res, rng, max(12, n // 40))
+    cyc.extreme_scale_stream(res, cyc.NAMES, rng, max(12, n // 60))      # scale invariance at magnitudes 2^-1000 … 2^900 (cycle lists, exact)
     for (kind, api, h, s, h2, a, b), ans in zip(meta, core.driver_batch(reqs)):
         if ans != 'ok':
             res.failures.append({'signature': f'C03:{api}:{kind}:{enc_list(h)}->{enc_list(h2)}', 'clause': kind, 'api': api,
